@@ -164,7 +164,6 @@ ContractionWhy(pre, ref, K, out) ==
        surv   == {i \in DOMAIN pre : pre[i].id \in outIds}
        pairs  == {<<pre[i].n1, out[OutIdx(out, pre[i].id)].n1>> : i \in surv} \cup {<<pre[i].n2, out[OutIdx(out, pre[i].id)].n2>> : i \in surv}
    IN IF Cardinality(outIds) # Len(out) \/ ~(outIds \subseteq Ids(pre)) THEN "ids"
-      ELSE IF \E i, j \in surv : i < j /\ OutIdx(out, pre[i].id) > OutIdx(out, pre[j].id) THEN "order"
       ELSE IF \E i \in surv : ~SameElemE(out[OutIdx(out, pre[i].id)].e, pre[i].e) THEN "element_changed"
       ELSE IF \E p, q \in pairs : p[1] = q[1] /\ p[2] # q[2] THEN "node_map_not_a_function"
       ELSE IF \E p \in pairs : p[2] \notin ShortClass(pre, K, p[1]) THEN "merged_nodes_not_joined_by_shorts"
